@@ -424,7 +424,10 @@ func buildSpec(mode string, n int, devs []deviation) *pkiSpec {
 
 // pki is an instantiated specification.
 type pki struct {
-	spec   *pkiSpec
+	// rootMaxLen > 0: the roots were added with AddCertWithConstraint and a constraint that rejects every chain of
+	// more than rootMaxLen certificates
+	rootMaxLen int
+	spec       *pkiSpec
 	leaf   *mCert
 	inter  []*mCert
 	roots  []*mCert
@@ -470,7 +473,7 @@ func (p *pkiSpec) instantiate() (*pki, error) {
 
 func mkPool(cs []*mCert, poolMode int) *smx509.CertPool {
 	pool := smx509.NewCertPool()
-	if poolMode == 0 {
+	if poolMode == 0 || poolMode == 2 {
 		for _, c := range cs {
 			pool.AddCert(c.cert)
 		}
@@ -515,6 +518,9 @@ func (p *pki) judge(chain []*mCert, at time.Time) (string, string) {
 	}
 	if !p.isRoot[chain[len(chain)-1]] {
 		return "chain-does-not-end-in-roots-pool", "last element " + chain[len(chain)-1].name + " is not in the roots pool"
+	}
+	if p.rootMaxLen > 0 && len(chain) > p.rootMaxLen {
+		return "root-constraint-violated", fmt.Sprintf("the constraint registered with the root rejects chains of more than %d certificates, this one has %d", p.rootMaxLen, len(chain))
 	}
 	for i, c := range chain {
 		if at.Before(c.nb) || at.After(c.na) {
@@ -613,6 +619,31 @@ func verifyOnce(t *engine.T, p *pki, devs []deviation, vt vtime, poolMode int, m
 		return fmt.Sprintf("mode=%s intermediates=%d deviations=%v time=%s pool=%d", p.spec.mode, p.spec.n, devs, vt.name, poolMode)
 	}
 	opts := smx509.VerifyOptions{Roots: mkPool(p.roots, poolMode), Intermediates: mkPool(p.inter, poolMode), CurrentTime: vt.t}
+	p.rootMaxLen = 0
+	if poolMode == 2 {
+		// roots registered with a constraint callback: chains of more than 3 certificates are refused by it
+		p.rootMaxLen = 3
+		defer func() { p.rootMaxLen = 0 }()
+		pool := smx509.NewCertPool()
+		for _, r := range p.roots {
+			r := r
+			pool.AddCertWithConstraint(r.cert, func(chain []*smx509.Certificate) error {
+				t.Extra("root_constraint_calls", 1)
+				// as in crypto/x509 the callback receives the chain built so far, i.e. without the root itself
+				if len(chain) == 0 || string(chain[len(chain)-1].RawIssuer) != string(r.cert.RawSubject) {
+					t.Fail("topo/root-constraint-called-with-foreign-chain", "%s: the constraint registered with %s was called with a chain whose last certificate was not issued by it", desc(), r.name)
+				}
+				if len(chain) > 0 && string(chain[0].Raw) != string(p.leaf.der) {
+					t.Fail("topo/root-constraint-called-with-foreign-chain", "%s: the constraint was called with a chain that does not start at the leaf", desc())
+				}
+				if len(chain)+1 > 3 {
+					return fmt.Errorf("chain too long for this root")
+				}
+				return nil
+			})
+		}
+		opts.Roots = pool
+	}
 	leaf := p.leaf.cert
 	if poolMode == 1 {
 		// a freshly parsed leaf, as a TLS peer would hand over
@@ -712,7 +743,7 @@ func runTopo(t *engine.T, mode string, n int, devs []deviation, times []vtime) m
 	t.Nontrivial(fmt.Sprintf("topo/%s/%d/%v", mode, n, devs))
 	res := map[string]string{}
 	for _, vt := range times {
-		for poolMode := 0; poolMode < 2; poolMode++ {
+		for poolMode := 0; poolMode < 3; poolMode++ {
 			must := len(devs) == 0 && !vt.t.Before(tNB) && !vt.t.After(tNA)
 			r := verifyOnce(t, p, devs, vt, poolMode, must)
 			if poolMode == 0 {
